@@ -73,6 +73,8 @@ RUNS = {
     ],
     "C03": [
         {"name": "K6-client-server", "mode": "kcs", "budget": (6000, 60000), "nontrivial": r" c0=", "keyfn": "kcs"},
+        {"name": "K5-current-name-after-renames", "mode": "k5", "budget": (12000, 120000), "nontrivial": r"ok=1|^rtyp=(?!7 )", "keyfn": "k5"},
+        {"name": "K6-fid-in-flight", "mode": "kmuxfid", "budget": (60, 2000), "nontrivial": r"formed=1", "keyfn": "generic"},
         {"name": "K7-messages-intact-while-in-use", "mode": "kalias", "budget": (70, 1400), "nontrivial": r"answered=1", "keyfn": "generic"},
     ],
     "C10": [
@@ -723,6 +725,8 @@ for _p in ("C06", "C18"):
     PROPS[_p]["rule"] = PROPS[_p].get("rule", "") + (" kxconn: 8..16 connections of one server exchange Tversion/Rversion as fast as they can for 150..250 ms, "
         "with tags, msize and version strings of their own: every reply must carry its own connection's tag, size, msize and string (anything a reply is "
         "built from that is shared between connections shows within a few thousand replies).")
+PROPS["C03"]["rule"] = PROPS["C03"].get("rule", "") + (" k5 (memfs backend, session model and identity oracle per request): Rename / Remove reach the backend as RenameAt / UnlinkAt on "
+    "the parent under the entry's *current* name after any history of renames; kmuxfid: a handle's fid is not handed to another File while its Tclunk is in flight.")
 PROPS["C10"]["level_text"] += (" Recycled response objects (Conc/RespPool.lean, after defect D20): over all clients of the process and every "
     "interleaving of calls starting, failing to send, being answered, connections failing and calls returning, a pooled response is referenced "
     "by no pending map and its channel is empty, no response serves two calls, and handleOne never blocks on a done channel while holding the "
